@@ -992,6 +992,33 @@ def str_method(ex, st, fi, o, name, args, kw, line):
         if isinstance(v, TokList):
             n = v.length()
             st.assume(Implies(zint(n) == 0, res.ln == 0))
+        if isinstance(v, GenExp) and len(v.node.generators) == 1 and \
+                isinstance(s.ln, int) and s.ln == 0:
+            # ''.join(t.txt for t in LIST) with LIST = explicit elements and
+            # optional (0/1) elements: exact concatenation
+            g = v.node.generators[0]
+            src_l = ex.ev1(g.iter, st, fi)
+            if isinstance(src_l, TokList) and not g.ifs and \
+                    isinstance(g.target, ast.Name) and \
+                    isinstance(v.node.elt, ast.Attribute) and \
+                    isinstance(v.node.elt.value, ast.Name) and \
+                    v.node.elt.value.id == g.target.id and all(
+                        isinstance(sg, Single) or getattr(
+                            sg, 'label', '') == 'opt01'
+                        for sg in src_l.segs):
+                acc = ''
+                for sg in src_l.segs:
+                    if isinstance(sg, Single):
+                        piece = ex.get_attr(sg.obj, v.node.elt.attr, st, line)
+                    else:
+                        e = sg.mk(st)
+                        t = lift_str(ex.get_attr(e, v.node.elt.attr, st,
+                                                 line))
+                        piece = SSeq(t.arr, Ite(zint(sg.ln) == 1, t.ln, 0),
+                                     'str')
+                    acc = sym.seq_concat(acc, piece)
+                yield st, acc
+                return
         if isinstance(v, GenExp) and len(v.node.generators) == 1:
             src_l = ex.ev1(v.node.generators[0].iter, st, fi)
             if isinstance(src_l, TokList):
